@@ -51,28 +51,45 @@ def run_loop(I, sl, st, env, inv):
     return True
 
 
+def _accumulator_name(st, op):
+    """The local that the loop body updates with `name op= ...` (names are not hard-wired, so
+    renaming locals does not disturb the invariant)."""
+    from .interp import Unsupported
+    names = {n.target.id for n in ast.walk(st) if isinstance(n, ast.AugAssign) and isinstance(n.op, op)
+             and isinstance(n.target, ast.Name)}
+    if len(names) != 1:
+        raise Unsupported("G-mode: the loop has no unique `name op= value` accumulator")
+    return names.pop()
+
+
 class MultiplyLoop:
     """math_functions.multiply:  product == prod_{i<j} args[i]  and  args[i] != 0 for i < j."""
     def body(self, I, sl):
         return lambda t: real_term(sl.elem(t))
+
+    def var(self, st):
+        return _accumulator_name(st, ast.Mult)
 
     def element(self, I, sl, j):
         return sl.elem(j)
 
     def on_entry(self, I, env, sl, st):
         f = self.body(I, sl)
-        p0 = env.vars.get("product")
+        from .interp import Unsupported
+        p0 = env.vars.get(self.var(st))
+        if not is_num(p0):
+            raise Unsupported("G-mode: the product accumulator is not initialised before the loop")
         I.path.require(real_term(p0) == gmode.bigprod(I, f, z3.IntVal(0)), "loop-invariant:multiply/initially")
         gmode.register_zero_lemma(I, f, sl.length)
 
     def assume_at(self, I, env, sl, st, j):
         f = self.body(I, sl)
-        env.vars["product"] = SNum(gmode.bigprod(I, f, j), False)
+        env.vars[self.var(st)] = SNum(gmode.bigprod(I, f, j), False)
         qm(I).foralls.append((j, lambda t: f(t) != 0))
 
     def check_at(self, I, env, sl, st, j1):
         f = self.body(I, sl)
-        I.path.require(real_term(env.vars["product"]) == gmode.bigprod(I, f, j1), "loop-invariant:multiply/product-preserved")
+        I.path.require(real_term(env.vars[self.var(st)]) == gmode.bigprod(I, f, j1), "loop-invariant:multiply/product-preserved")
         s = z3.Int(I.path.fresh_name("s!nonzero"))
         qm(I).add_index(s, sl.length)
         I.path.require(z3.Implies(z3.And(s >= 0, s < j1), f(s) != 0), "loop-invariant:multiply/no-zero-so-far-preserved",
@@ -86,10 +103,13 @@ class AccumulateLoop:
         return sl.elem(j)
 
     def _parts(self, I, env):
-        acc = env.vars["accumulator"]
-        m = env.vars["multiplier"]
-        pt = env.vars["point"]
-        return acc, m, pt
+        # the parameters by position (self, accumulator, multiplier, point): names may change
+        fd = I.frames[-1].funcdef
+        names = [a.arg for a in fd.node.args.args]
+        from .interp import Unsupported
+        if len(names) != 4:
+            raise Unsupported("G-mode: unexpected signature of _compute_numeric_partials")
+        return env.vars[names[1]], env.vars[names[2]], env.vars[names[3]]
 
     def on_entry(self, I, env, sl, st):
         acc, m, pt = self._parts(I, env)
